@@ -450,6 +450,10 @@ def unit_bps(ctx):
     cell = ctx.choose("cell", CELLS3)
     d = ctx.choose("direction", [0, 1, 2])
     rev = ctx.choose("reversed", [False, True])
+    # the sample need not fill the mesh: cells outside an ellipsoid hold zero and are not valid.  (A cuboid sample one cell
+    # smaller than an 8-cell mesh was tried and withdrawn: with 6 cells across, the un-rounded cumulative flux comes within
+    # 0.01 of the rounding threshold - an under-resolved input, not a statement about the library.)
+    sample = ctx.choose("sample", ["whole-mesh", "ellipsoid"])
     origin = (0.3 * cell[0], -1.0 * cell[1], 5.0 * cell[2])
     ax = [origin[a] + (np.arange(n[a]) + 0.5) * cell[a] - (origin[a] + 0.5 * n[a] * cell[a]) for a in range(3)]
     X, Y, Z = np.meshgrid(*ax, indexing="ij")
@@ -459,8 +463,18 @@ def unit_bps(ctx):
         arr = -arr
     p2 = tuple(o + k * c for o, k, c in zip(origin, n, cell))
     mesh = df.Mesh(region=df.Region(p1=origin, p2=p2), n=n)
-    f = df.Field(mesh, nvdim=3, value=arr)
-    ctx.step(1, f"count_bps(hedgehog {n}, {mesh.region.dims[d]})")
+    if sample == "whole-mesh":
+        f = df.Field(mesh, nvdim=3, value=arr)
+    else:
+        if sample == "ellipsoid":
+            half = [0.5 * n[a] * cell[a] for a in range(3)]
+            keep = (X / half[0]) ** 2 + (Y / half[1]) ** 2 + (Z / half[2]) ** 2 <= 0.81
+        else:
+            keep = np.zeros(n, dtype=bool)
+            keep[1:-1, 1:-1, 1:-1] = True
+        arr = np.where(keep[..., None], arr, 0.0)
+        f = df.Field(mesh, nvdim=3, value=arr, valid="norm")
+    ctx.step(1, f"count_bps(hedgehog {n}, {mesh.region.dims[d]}, {sample})")
     r = dft.count_bps(f, mesh.region.dims[d])
     got = (float(r["bp_number"]), float(r["bp_number_tt"]), float(r["bp_number_hh"]))
     ctx.observe(got)
@@ -497,10 +511,14 @@ def _angle_field(pattern, n, d):
         code = (i + 3 * j + 5 * k + i * j) % len(VECS)
         return np.asarray(VECS, dtype=float)[code]
     flat = (i * n[1] + j) * n[2] + k
-    if pattern == "parallel":
-        return np.asarray((1.0, 2.0, 3.0)) * (1.0 + flat)[..., None]
-    if pattern == "antiparallel":
-        return np.asarray((0.5, -1.0, 0.25)) * ((1.0 + flat) * (-1.0) ** idx[..., d])[..., None]
+    if pattern in ("parallel", "antiparallel"):
+        # several directions (one per grid line along d): for some of them the dot product of the two normalised vectors
+        # rounds to 1.0000000000000002 / -1.0000000000000002, for others to 0.9999999999999999 or exactly 1
+        bases = np.asarray([(1.0, 2.0, 3.0), (1.0, 1.0, 1.0), (2.0, -1.0, 0.5), (-1.0, -1.0, -1.0), (0.5, -1.0, 0.25),
+                            (3.0, -7.0, 11.0), (0.0, 0.0, 1.0), (1e-3, 1e-3, -1e-3)])
+        line = (i + j + k - idx[..., d]) % len(bases)
+        sign = (-1.0) ** idx[..., d] if pattern == "antiparallel" else 1.0
+        return bases[line] * ((1.0 + flat) * sign)[..., None]
     if pattern == "generic":
         t = 0.37 * flat + 0.11 * i * i
         u = 0.9 * j - 0.23 * k + 0.05 * flat
